@@ -11,6 +11,7 @@ import (
 	"errors"
 	"fmt"
 	"io"
+	"math"
 	"os"
 	"strings"
 
@@ -695,6 +696,50 @@ func c03Run(c *engine.Ctx) {
 			c03Exec(c, c03Case{Mode: "sql", G: g, Ext: ext, XDR: i%2 == 1}, nil)
 		}
 	})
+	// (3b) every value of the LAST byte of an encoding: points whose last ordinate carries each of
+	// the 256 values in its lowest mantissa byte (the last byte in XDR) and in its sign/exponent
+	// byte (the last byte in NDR) - through Unmarshal, hex and every SQL wrapper
+	c.Parallel(256, func(b int) {
+		lowByte := math.Float64frombits(math.Float64bits(1) | uint64(b))
+		topByte := math.Float64frombits(uint64(b)<<56 | 0x0010000000000000)
+		for _, y := range []float64{lowByte, topByte} {
+			for _, l := range []geom.Layout{geom.XY, geom.XYZM} {
+				g := ref.NewPoint(l, true, ref.CounterFrom(3))
+				g.C0[len(g.C0)-1] = ref.F(y)
+				ln := ref.NewLine(ref.LineString, l, 2, ref.CounterFrom(5))
+				ln.C1[1][len(ln.C1[1])-1] = ref.F(y)
+				for _, m := range []*ref.G{g, ln} {
+					for _, ext := range []bool{false, true} {
+						for _, xdr := range []bool{false, true} {
+							c.Count("last_byte_cases", 1)
+							c03Exec(c, c03Case{Mode: "bytes", G: m, Ext: ext, XDR: xdr}, nil)
+							c03Exec(c, c03Case{Mode: "sql", G: m, Ext: ext, XDR: xdr}, nil)
+						}
+					}
+				}
+			}
+		}
+	})
+	// (3c) counts beyond 2^16: a polygon with 65536, 65537 and 70001 rings without positions, and a
+	// multi-line, a multi-polygon and a collection with 65537 such members
+	for _, n := range []int{65536, 65537, 70001} {
+		rings := make([]int, n)
+		big16 := []*ref.G{ref.NewParts(ref.Polygon, geom.XY, rings, ref.Counter())}
+		if n == 65537 {
+			polys := make([][]int, n)
+			kids := make([]*ref.G, n)
+			for i := range kids {
+				kids[i] = ref.NewCollection(geom.NoLayout)
+			}
+			big16 = append(big16, ref.NewParts(ref.MultiLineString, geom.XYZ, rings, ref.Counter()), ref.NewMultiPolygon(geom.XY, polys, ref.Counter()), ref.NewCollection(geom.NoLayout, kids...))
+		}
+		for _, g := range big16 {
+			for _, ext := range []bool{false, true} {
+				c.Count("counts_beyond_2_16", 1)
+				c03Exec(c, c03Case{Mode: "bytes", G: g, Ext: ext, XDR: n%2 == 0}, nil)
+			}
+		}
+	}
 	// (4) reader exploration
 	bound := 1
 	if c.Thorough() {
